@@ -330,6 +330,14 @@ func (a *Activation) applyContract(con *FuncContract, fn *ssa.Function, args []V
 			t.set(post, m.array, sApp("store", cur, m.ref, nv))
 		}
 	}
+	// the callee may allocate: later allocations of the caller are newer than anything it returned
+	{
+		t.regArray("$now", "Int")
+		old := t.lookup(post, "$now")
+		nn := t.fresh("now@c", "Int")
+		t.assume(st.pc, "(>= "+nn+" "+old+")")
+		t.set(post, "$now", nn)
+	}
 	// results
 	var res []Val
 	for i := 0; i < sig.Results().Len(); i++ {
@@ -355,7 +363,9 @@ func (a *Activation) applyContract(con *FuncContract, fn *ssa.Function, args []V
 }
 
 // wfRefPost: results of contracted calls are either old or freshly allocated: no constraint except non-garbage.
-func (a *Activation) wfRefPost(st *State, v Val) {}
+func (a *Activation) wfRefPost(st *State, v Val) {
+	a.wfRef(st, v)
+}
 
 func caseSuffix(c *FuncContract) string {
 	if c.Case != "" {
@@ -396,6 +406,10 @@ func (t *Task) verifyFunc(fn *ssa.Function, con *FuncContract) {
 		v := t.freshValue(tTrue, "fv:"+fv.Name(), fv.Type())
 		fvs = append(fvs, v)
 		t.registerModelSyms(v)
+		if v.K == KRef {
+			// captured variables are cells: never nil
+			t.assume(tTrue, sNot(sEq(v.S, "0")))
+		}
 	}
 	a0 := &Activation{t: t, fn: fn}
 	for _, v := range append(append([]Val{}, args...), fvs...) {
@@ -405,9 +419,11 @@ func (t *Task) verifyFunc(fn *ssa.Function, con *FuncContract) {
 	a := &Activation{t: t, fn: fn, env: map[ssa.Value]Val{}, entry: st0, params: map[string]Val{}, con: con, lets: map[string]Val{}}
 	for i, p := range fn.Params {
 		a.params[p.Name()] = args[i]
+		a.env[p] = args[i]
 	}
 	for i, p := range fn.FreeVars {
 		a.params[p.Name()] = fvs[i]
+		a.env[p] = fvs[i]
 	}
 	env := a.exprEnv(st0, nil)
 	for _, c := range con.Clauses {
@@ -420,6 +436,13 @@ func (t *Task) verifyFunc(fn *ssa.Function, con *FuncContract) {
 			// magnitude premise about the environment (clock values ...): assumed, listed, not a call-site obligation
 			t.assume(tTrue, env.evalBool(c.Expr, c.Src))
 			t.assumed["magnitude premise ("+c.Src+"): "+c.Expr] = true
+		case "oldlet":
+			v := env.evalSrc(c.Expr, c.Src)
+			env.vars[c.Name] = v
+			if t.pendingLets == nil {
+				t.pendingLets = map[string]Val{}
+			}
+			t.pendingLets[c.Name] = v
 		case "ext":
 			// values returned by opaque calls made in the body: nameable from the start
 			v := env.evalSrc(c.Expr, c.Src)
